@@ -844,8 +844,11 @@ def simplify_variant(e):
             if i is None and name.isdigit():
                 i = int(name)
             alts = [strip(a) for a in c.args]
-            if i is not None and all(a.k == 'aggr' and a.c is not None and a.name == 'tuple' and i < len(a.args) for a in alts):
-                parts = [a.args[i] for a in alts]
+            def is_pair(a):
+                return (a.k == 'aggr' and a.c is not None and a.name == 'tuple' and i < len(a.args)) or \
+                       (a.k == 'call' and last(a.name or '') in ('split_at', 'split_at_mut') and len(a.args) == 2 and i in (0, 1))
+            if i is not None and all(is_pair(a) for a in alts):
+                parts = [a.args[i] if a.k == 'aggr' else simplify_slices(E('field', str(i), [a], c={'fidx': i})) for a in alts]
                 return parts[0] if len(parts) == 1 else E('phi', None, parts, c=c.c)
         if c.k == 'field' and (c.name or '').startswith('as ') and c.args:
             i = (e.c or {}).get('fidx')
